@@ -642,7 +642,7 @@ class Merger:
     def _insert_dict(
         self, insert_at: YAMLPath,
         lhs: Union[CommentedMap, CommentedSeq, CommentedSet],
-        rhs: CommentedMap
+        rhs: CommentedMap, target: NodeCoords
     ) -> bool:
         """Insert an RHS dict merge result into the LHS document."""
         merge_performed = False
@@ -698,14 +698,16 @@ class Merger:
             .format(lhs.tag.value, rhs.tag.value))
         lhs.yaml_set_tag(rhs.tag.value)
 
-        if insert_at.is_root:
+        if target.parent is None:
             self.data = merged_data
+        else:
+            target.parent[target.parentref] = merged_data
         return merge_performed
 
     def _insert_list(
         self, insert_at: YAMLPath,
         lhs: Union[CommentedMap, CommentedSeq, CommentedSet],
-        rhs: CommentedSeq
+        rhs: CommentedSeq, target: NodeCoords
     ) -> bool:
         """Insert an RHS list merge result into the LHS document."""
         merge_performed = False
@@ -743,14 +745,16 @@ class Merger:
             .format(lhs.tag.value, rhs.tag.value))
         lhs.yaml_set_tag(rhs.tag.value)
 
-        if insert_at.is_root:
+        if target.parent is None:
             self.data = merged_data
+        else:
+            target.parent[target.parentref] = merged_data
         return merge_performed
 
     def _insert_set(
         self, insert_at: YAMLPath,
         lhs: Union[CommentedMap, CommentedSeq, CommentedSet],
-        rhs: CommentedSet
+        rhs: CommentedSet, target: NodeCoords
     ) -> bool:
         """Insert an RHS list merge result into the LHS document."""
         merge_performed = False
@@ -788,8 +792,10 @@ class Merger:
             .format(lhs.tag.value, rhs.tag.value))
         lhs.yaml_set_tag(rhs.tag.value)
 
-        if insert_at.is_root:
+        if target.parent is None:
             self.data = merged_data
+        else:
+            target.parent[target.parentref] = merged_data
         return merge_performed
 
     def _insert_scalar(
@@ -907,15 +913,15 @@ class Merger:
                 merge_performed = True
             elif isinstance(rhs, CommentedMap):
                 merge_performed = self._insert_dict(
-                    insert_at, target_node, rhs)
+                    insert_at, target_node, rhs, node_coord)
             elif isinstance(rhs, CommentedSeq):
                 # The RHS document root is a list
                 merge_performed = self._insert_list(
-                    insert_at, target_node, rhs)
+                    insert_at, target_node, rhs, node_coord)
             elif isinstance(rhs, CommentedSet):
                 # The RHS document is a set
                 merge_performed = self._insert_set(
-                    insert_at, target_node, rhs)
+                    insert_at, target_node, rhs, node_coord)
             else:
                 # The RHS document root is a Scalar value
                 merge_performed = self._insert_scalar(
